@@ -130,18 +130,44 @@ Theorem C17_refuted_cleared_error :
 Proof. exact refuted_cleared_error. Qed.
 Print Assumptions C17_refuted_cleared_error.
 
-(** tie to the correspondence check (sink-level cases): agreement with the repaired model on a case
-    implies the executable spec on the implementation's observation.
-    PARTIAL: proved for the sink-level cases; for job-level cases the same statement
-      [forall c, t_job c = true -> agree VFixed c = true -> spec_ok c = true]
-    is not proved (gap: reflecting C17_run_outcome through the boolean [spec_runs] along a chain);
-    it is exercised on every generated case by [evaluate]. *)
-Theorem C17_agree_implies_spec_partial : forall c,
+(** ... also when further failing runs (cron ticks, manual runs) arrive while re-runs are still pending:
+    the executions on top of the [ext] external ones and the [queued] pending ones are bounded by the retries *)
+Theorem C17_rerun_bound_burst : forall inner v cfg fuel n ext queued (st : jstate Z),
+  (Z.of_nat (length (burst inner v cfg fuel n ext queued st))
+   <= Z.of_nat ext + Z.of_nat queued + Z.max 0 (j_retries st))%Z.
+Proof. exact burst_len_bound. Qed.
+Print Assumptions C17_rerun_bound_burst.
+
+(** tie to the correspondence check: agreement with the repaired model on a case implies the executable
+    spec on the implementation's observation.  Sink-level cases (full): *)
+Theorem C17_agree_implies_spec_sink : forall c,
   t_job c = false -> (0 <= t_preCount c)%Z ->
   limit_hit (Z.to_nat (t_maxItems c)) (Z.to_nat (t_preCount c)) = false ->
   agree VFixed c = true -> spec_ok c = true.
 Proof. exact agree_fixed_spec_sink. Qed.
-Print Assumptions C17_agree_implies_spec_partial.
+Print Assumptions C17_agree_implies_spec_sink.
+
+(** Job-level cases (chains of runs with re-runs, cron firings and appended entities) in the scope where the
+    full per-run spec applies: log handler, permanently failing sink, no kill.
+    PARTIAL with respect to all job-level cases: for cases with a kill, a transient sink or without a log
+    handler the statement
+      [forall c, t_job c = true -> agree VFixed c = true -> spec_ok c = true]
+    is not proved (gap: the general clauses of [spec_run] - prefix of the feed, kill => interrupted and no
+    re-run - need the page-loop lemma [sync_pages_post] generalised to [c_kill <> None] and [c_log = false]);
+    those cases are checked by [evaluate] on every run of the check. *)
+Theorem C17_agree_implies_spec_job_partial : forall c,
+  t_job c = true -> (0 <? t_burst c)%Z = false ->
+  t_log c = true -> t_failcalls c = [] -> (t_killAt c <? 0)%Z = true -> forallb (Z.leb 0) (t_bad c) = true ->
+  (Z.of_nat (Z.to_nat (t_crons c)) + Z.max 0 (retries0 c) < 60)%Z ->
+  agree VFixed c = true -> spec_ok c = true.
+Proof. exact agree_fixed_spec_job. Qed.
+Print Assumptions C17_agree_implies_spec_job_partial.
+
+(** burst cases (any variant of the model) *)
+Theorem C17_agree_implies_spec_burst : forall v c,
+  t_job c = true -> (0 <? t_burst c)%Z = true -> agree v c = true -> spec_ok c = true.
+Proof. exact agree_spec_burst. Qed.
+Print Assumptions C17_agree_implies_spec_burst.
 
 (** non-vacuity *)
 Example C17_nonvacuous_1 :
